@@ -252,7 +252,7 @@ def hasheq_exec(rng, n):
                 b = a[:i] + bytes([a[i] ^ (1 << rng.randrange(8))]) + a[i + 1:]
             lines.append("HASHEQ u64 %s %s 0 0 %s" % (_hex(a), _hex(b), rel))
             continue
-        ln = rng.choice([0, 0, 1, 2, 3, 4, 5, 7, 8, 11, 12, 13, 16, 23, 24, 25, 31])
+        ln = rng.choice([0, 0, 1, 2, 3, 4, 5, 6, 7, 7, 8, 9, 10, 11, 12, 13, 16, 19, 19, 23, 24, 25, 31, 31, 43])
         a = bytes(rng.choice(alpha) for _ in range(ln))
         rel = rng.choice(["copy", "copy", "case", "diff"])
         b = a
@@ -276,7 +276,10 @@ def hasheq_exec(rng, n):
                 b = a + bytes([rng.choice(alpha)]) if (rng.random() < 0.5 or ln == 0) else a[:-1]
         na = nb = 0
         if fam in ("cursor", "cursor_ic"):
-            na, nb = rng.choice([0, 1]), rng.choice([0, 1])   # zero-length cursors: NULL pointer or not
+            # zero-length cursors: NULL pointer or not; key bytes at every offset from a 4-aligned address, followed by
+            # nothing (exact-size block), ':' or 0xff: where a key lies and what follows it must not matter
+            na = rng.choice([0, 1]) | (rng.randrange(4) << 1) | (rng.choice([0, 0, 58, 255]) << 3)
+            nb = rng.choice([0, 1]) | (rng.randrange(4) << 1) | (rng.choice([0, 0, 58, 255]) << 3)
         lines.append("HASHEQ %s %s %s %d %d %s" % (fam, _hex(a), _hex(b), na, nb, rel))
     return lines
 
